@@ -186,22 +186,46 @@ Proof.
 Qed.
 
 (* ------------------------------------------------------------------ 5. models *)
+Lemma apply_exp_fn_depth vinfos f f' : apply_exp_fn vinfos f = Ok f' -> ifdepth f' = ifdepth f.
+Proof.
+  unfold apply_exp_fn. destruct (exp_entries vinfos f); intros H.
+  - inversion H. reflexivity.
+  - apply bind_ok in H. destruct H as [vals [_ H]]. inversion H; subst f'. clear H.
+    unfold ifdepth. cbn [if_graph if_attrs]. rewrite !igdepth_eq. reflexivity.
+Qed.
+
+Lemma mapM_Forall_in {A B} (f : A -> res B) (P : B -> Prop) l :
+  (forall x y, In x l -> f x = Ok y -> P y) -> forall ys, mapM f l = Ok ys -> Forall P ys.
+Proof.
+  induction l as [|x r IH]; intros HP ys H.
+  - inversion H. constructor.
+  - rewrite mapM_cons in H. apply bind_ok in H. destruct H as [y [Ey H]].
+    apply bind_ok in H. destruct H as [ys' [Eys H]]. inversion H; subst.
+    constructor; [apply (HP x y); [left; reflexivity | exact Ey]|].
+    apply IH; [intros x0 y0 Hx0; apply HP; right; exact Hx0 | exact Eys].
+Qed.
+
 Lemma deser_model_depth : forall fuel m im, deser_model_fuel fuel m = Ok im -> (imdepth im <= S fuel)%nat.
 Proof.
   intros fuel m im H. unfold deser_model_fuel in H. cbv zeta in H.
-  destruct (_ && _); [discriminate|].
   apply bind_ok in H. destruct H as [g [Eg H]].
   apply bind_ok in H. destruct H as [fs [Ef H]].
+  apply bind_ok in H. destruct H as [fs' [Ef' H]].
   inversion H; subst im. clear H.
   unfold imdepth. cbn [im_graph im_funcs].
+  assert (Hfs : forall fn, In fn (funcs_dict [] fs) -> (ifdepth fn <= S fuel)%nat).
+  { intros fn Hfn. apply funcs_dict_in in Hfn. destruct Hfn as [[]|Hfn].
+    pose proof (mapM_Forall _ (fun fn => (ifdepth fn <= S fuel)%nat) _
+                  (fun x y E => deser_function_depth fuel x y E) _ Ef) as F.
+    rewrite Forall_forall in F. apply F. exact Hfn. }
   apply Nat.max_lub.
   - rewrite igdepth_eq. cbn [ig_nodes]. rewrite <- igdepth_eq.
     apply deser_graph_depth in Eg. lia.
-  - apply list_max_map_le. apply Forall_forall. intros fn Hfn.
-    apply funcs_dict_in in Hfn. destruct Hfn as [[]|Hfn].
-    pose proof (mapM_Forall _ (fun fn => (ifdepth fn <= S fuel)%nat) _
-                  (fun x y E => deser_function_depth fuel x y E) _ Ef) as F.
-    rewrite Forall_forall in F. apply F. exact Hfn.
+  - apply list_max_map_le.
+    destruct (dflt 0%Z (m_irv m) <? FUNCTION_VALUE_INFO_SUPPORTED_VERSION)%Z.
+    + apply (mapM_Forall_in (apply_exp_fn (g_vinfo (m_graph m))) _ (funcs_dict [] fs)); [|exact Ef'].
+      intros x y Hx E. rewrite (apply_exp_fn_depth _ _ _ E). exact (Hfs x Hx).
+    + inversion Ef'; subst. apply Forall_forall. exact Hfs.
 Qed.
 
 Print Assumptions deser_graph_depth.
